@@ -387,6 +387,18 @@ Section Model.
                end
     end.
 
+  (* getattr(o, y, MISSING) behind lazy_object_proxy.Proxy: AttributeError
+     becomes MISSING; when the factory raises anything else, Proxy.__wrapped__
+     runs it a second time before the error surfaces (observable: a
+     DeprecatedAlias warns twice) *)
+  Definition helper_read (r : val) (w : Z) : res out * Z :=
+    let '(rd, (_, w1)) := host_get (r, w) in
+    match rd with
+    | Err AttrErr => (rd, w1)
+    | Err _ => let '(rd2, (_, w2)) := host_get (r, w1) in (rd2, w2)
+    | Ok _ => (rd, w1)
+    end.
+
   Definition xstep (s : xst) (o : xop) : res out * xst :=
     match o with
     | XOn i o' =>
@@ -434,7 +446,7 @@ Section Model.
         | None => (Err IndexErr, s)
         | Some r =>
             if negb (h_spec h) then (Err AttrErr, s)
-            else let '(rd, (_, w1)) := host_get (r, snd s) in
+            else let '(rd, w1) := helper_read r (snd s) in
                  transform_then (c_name c) rd g
                    (fun e => (Err e, (fst s, w1)))
                    (fun v1 => with_alias s r w1 v1)
@@ -449,7 +461,7 @@ Section Model.
             else match x with
                  | Some v => with_alias s r (snd s) v
                  | None =>
-                     let '(rd, (_, w1)) := host_get (r, snd s) in
+                     let '(rd, w1) := helper_read r (snd s) in
                      transform_then (c_name c) rd HId
                        (fun e => (Err e, (fst s, w1)))
                        (fun v1 => with_alias s r w1 v1)
